@@ -747,7 +747,7 @@ pub fn shard_run_grammar(prop: &str, tier: &str, seed: u64, replay_case: Option<
     }
     // C20 also rides on protocol histories (all outcome kinds through the handlers)
     if prop == "C20" && replay_case.is_none() {
-        let n_hist = if thorough { 400 } else { 24 };
+        let n_hist = if thorough { 600 } else { 120 };
         for i in 0..n_hist {
             if !shard.mine(i) {
                 continue;
@@ -1025,7 +1025,7 @@ pub fn shard_run_c16(tier: &str, seed: u64, replay_case: Option<usize>, shard: S
         }
     }
     // listed clients' histories: server with a list vs server without
-    let n_hist = if thorough { 600 } else { 36 };
+    let n_hist = if thorough { 1200 } else { 180 };
     for i in 0..n_hist {
         if replay_case.is_some() || !shard.mine(i) {
             continue;
